@@ -805,7 +805,9 @@ def extract_capabilities(text: bytes) -> tuple[bytes, list[bytes]]:
     if b"\0" not in text:
         return text, []
     text, capabilities = text.rstrip().split(b"\0")
-    return (text, capabilities.strip().split(b" "))
+    # An empty list (nothing after the NUL) has no capabilities, not one
+    # that is the empty string.
+    return (text, [c for c in capabilities.strip().split(b" ") if c])
 
 
 def extract_want_line_capabilities(text: bytes) -> tuple[bytes, list[bytes]]:
